@@ -12,6 +12,16 @@ pub struct Failure {
     pub desc: String,
 }
 
+/// F12 (known finding): rows already in the scrollback keep their old width when `set_size` changes
+/// the number of columns, so a view scrolled back over them is drawn with the wrong width. Failures
+/// of the redraw oracles in exactly that situation are classified under that key.
+pub fn rekey(mut f: Failure, scrolled: bool, cols_changed: bool) -> Failure {
+    if cols_changed && scrolled && matches!(f.property.as_str(), "C01" | "C02" | "C15") && !f.key.starts_with("F9-") {
+        f.key = "F12-stale-width-scrollback".to_string();
+    }
+    f
+}
+
 fn fail(property: &str, key: &str, desc: String) -> Option<Failure> {
     Some(Failure { property: property.into(), key: key.into(), desc })
 }
